@@ -28,6 +28,9 @@ def check(m, run):
     _skel(m, run)
     oc.helper_alias_rules(m, run, 'helpers.knot_insertion')
     run.floor('AL1.no-shared-cells', 3, 'deep copies out of the work array of A5.1')
+    # the admissibility test relies on the multiplicity count: every knot within the tolerance of the parameter is counted
+    from . import c03 as _c03
+    _c03.tol2(m, run)
 
 
 def _skel(m, run):
